@@ -115,12 +115,24 @@ func shortenOK(orig, short string, width int) string {
 	if utf8.RuneCountInString(short) > width {
 		return fmt.Sprintf("shortened name %q is longer than %d", short, width)
 	}
-	i := strings.Index(short, "…")
-	if i < 0 {
+	if !strings.Contains(short, "…") {
 		return fmt.Sprintf("shortened name %q has no ellipsis", short)
 	}
-	pre, suf := short[:i], short[i+len("…"):]
-	if pre == "" || suf == "" || !strings.HasPrefix(orig, pre) || !strings.HasSuffix(orig, suf) {
+	// the name itself may contain the omission character: any of its occurrences may be the one that was put in
+	ok := false
+	for at := 0; ; {
+		k := strings.Index(short[at:], "…")
+		if k < 0 {
+			break
+		}
+		pre, suf := short[:at+k], short[at+k+len("…"):]
+		if pre != "" && suf != "" && strings.HasPrefix(orig, pre) && strings.HasSuffix(orig, suf) {
+			ok = true
+			break
+		}
+		at += k + len("…")
+	}
+	if !ok {
 		return fmt.Sprintf("shortened name %q is not prefix+…+suffix of %q", short, orig)
 	}
 	return ""
